@@ -2,12 +2,15 @@
 # usage: confirm_seed.sh <worktree> <outdir(with patch.diff, demo.cc)> : confirms a seeded change independently
 wt="$1"; out="$2"
 cd "$wt" || exit 2
+if [ ! -f _build/build.ninja ]; then
+  cmake -G Ninja -S . -B _build -DFETCHCONTENT_SOURCE_DIR_GOOGLETEST=/usr/src/googletest -DCMAKE_BUILD_TYPE=RelWithDebInfo -DOVM_BUILD_DOCUMENTATION=OFF -DOVM_ENABLE_EXAMPLES=OFF -DOVM_ENABLE_APPLICATIONS=OFF -DCMAKE_CXX_FLAGS=-Wno-error > /dev/null 2>&1
+fi
 git checkout -q -- . ; git apply "$out/patch.diff" || { echo "RESULT apply-failed"; exit 1; }
 cmake --build _build > "$out/confirm_build.log" 2>&1 || { echo "RESULT build-failed"; git checkout -q -- .; exit 1; }
 ( cd _build && ctest -j1 > "$out/confirm_ctest.log" 2>&1 ); tests=$(grep -E "tests passed" "$out/confirm_ctest.log")
-g++ -std=c++17 -O1 -I src -I _build/src "$out/demo.cc" _build/Build/lib/libOpenVolumeMesh.a -o /tmp/demo_$$ 2>/dev/null && /tmp/demo_$$ > "$out/confirm_demo_with.log" 2>&1; with=$?
+g++ -std=c++17 -O1 -pthread -I src -I _build/src "$out/demo.cc" _build/Build/lib/libOpenVolumeMesh.a -o /tmp/demo_$$ 2>/dev/null && /tmp/demo_$$ > "$out/confirm_demo_with.log" 2>&1; with=$?
 git checkout -q -- .
 cmake --build _build >> "$out/confirm_build.log" 2>&1
-g++ -std=c++17 -O1 -I src -I _build/src "$out/demo.cc" _build/Build/lib/libOpenVolumeMesh.a -o /tmp/demo_$$ 2>/dev/null && /tmp/demo_$$ > "$out/confirm_demo_without.log" 2>&1; without=$?
+g++ -std=c++17 -O1 -pthread -I src -I _build/src "$out/demo.cc" _build/Build/lib/libOpenVolumeMesh.a -o /tmp/demo_$$ 2>/dev/null && /tmp/demo_$$ > "$out/confirm_demo_without.log" 2>&1; without=$?
 rm -f /tmp/demo_$$
 echo "RESULT tests=[$tests] demo_with_change_exit=$with demo_without_change_exit=$without"
